@@ -708,7 +708,7 @@ class Interp:
         self.w = world
         self.env = dict(ns)
         self.pre_exempt = pre_exempt
-        self.trace = []          # (expr src, file, escape fn or None, "expr"|"raw"|"module")
+        self.trace = []          # (bytes before escaping, file, escape fn or None, "expr"|"raw"|"module")
         self.ws = {}             # file -> annotated body
         self.auto = {}           # file -> escape function name or None
         self.executed = set()
@@ -781,7 +781,7 @@ class Interp:
         else:
             data = _to_bytes(str(v))
         fn = self.auto[fname] if kind == "expr" else None
-        self.trace.append((src, fname, fn, kind))
+        self.trace.append((data, fname, fn, kind))
         if fn is not None:
             if fn == "xhtml_escape" or fn == "escape":
                 data = ref_xhtml_escape(data.decode("utf-8")).encode("utf-8")
@@ -1210,6 +1210,7 @@ def shrink_candidates_body(body):
             # replace by its body
             yield _merge_text(rest_l + b + rest_r)
             for ci in range(len(cls)):
+                yield _merge_text(rest_l + cls[ci][-1] + rest_r)
                 yield rest_l + (rebuild(node, b, cls[:ci] + cls[ci + 1:]),) + rest_r
             for nb in shrink_candidates_body(b):
                 yield rest_l + (rebuild(node, nb, cls),) + rest_r
@@ -1239,6 +1240,22 @@ def shrink_world(world, still_bad, budget=400):
     changed = True
     while changed and budget > 0:
         changed = False
+        for fname in list(world["files"]):
+            if len(world["files"]) > 1:
+                w2 = dict(world)
+                w2["files"] = {fname: world["files"][fname]}
+                w2["entry"] = fname
+                budget -= 1
+                try:
+                    ok = still_bad(w2)
+                except Exception:
+                    ok = False
+                if ok:
+                    world = w2
+                    changed = True
+                    break
+        if changed:
+            continue
         for fname in list(world["files"]):
             for nb in shrink_candidates_body(world["files"][fname]):
                 budget -= 1
